@@ -38,9 +38,17 @@ def classify(spec, impl):
         # a DelayToPull adapter feeding a pull-based component that is pulled more than once per consumer update:
         # the first pull advances the adapter's request history, the second one asks for a later time than the
         # driver assumed when scheduling
+        def pulled_repeatedly(i, depth=0):
+            """pull-based component i is pulled more than once per consumer update: it has several readers, or its only
+            reader is a pull-based component that is"""
+            outs = [m for m in spec["links"] if m["src"] == i]
+            if len(outs) > 1:
+                return True
+            return depth < len(spec["comps"]) and any(spec["comps"][m["dst"]]["kind"] == "pull" and pulled_repeatedly(m["dst"], depth + 1)
+                                                      for m in outs)
+
         for l in spec["links"]:
-            if any(a[0] == "dpull" for a in l["ads"]) and spec["comps"][l["dst"]]["kind"] == "pull" \
-                    and sum(1 for m in spec["links"] if m["src"] == l["dst"]) > 1:
+            if any(a[0] == "dpull" for a in l["ads"]) and spec["comps"][l["dst"]]["kind"] == "pull" and pulled_repeatedly(l["dst"]):
                 return SIG_F19
     below = "in the past" in msg
     m = re.search(r"Requested time (\S+ \S+) out of range \[(\S+ \S+), (\S+ \S+)\]", msg)
@@ -69,6 +77,8 @@ def gen(ctx):
     if r < 0.2:
         from . import c20
         return c20.gen_pull(ctx.rng)   # producers -> pull-based component(s) -> consumer, two outputs, diamonds, delayed paths
+    if r < 0.3:
+        return sc.gen_mixed_delay_chain(ctx.rng)   # DelayToPull / DelayFixed / pass-through adapters mixed on one link, in every order
     if r < 0.5:
         return sc.gen_dag(ctx.rng)
     if r < 0.75:
